@@ -53,12 +53,22 @@ func (m modelsim) Gen(prop, tier string, ts *sim.Tapes) *Case {
 		p.NoBigValues = true
 	}
 	prog := work.GenProgram(ts, cfg, p)
-	return &Case{Prop: prop, Engine: m.Name(), Tier: tier, Seed: ts.Seed, Run: ts.Run, Prog: prog,
-		Tapes: map[string][]uint64{}}
+	c := &Case{Prop: prop, Engine: m.Name(), Tier: tier, Seed: ts.Seed, Run: ts.Run, Prog: prog,
+		Tapes: map[string][]uint64{}, Params: map[string]int{}}
+	if prop == "C05" && ts.Run%64 == 9 {
+		// the scenario with more than 65535 uncommitted keys in one leaf (props/hugeleaf.go)
+		c.Params["hugeleaf"] = 1
+		c.Prog = &work.Program{Cfg: cfg}
+	}
+	return c
 }
 
 func (m modelsim) Run(c *Case, dir string) *Outcome {
 	out := &Outcome{}
+	if c.Params["hugeleaf"] == 1 {
+		hugeLeaf(c, dir, out)
+		return out
+	}
 	path := filepath.Join(dir, "db")
 	os.Remove(path)
 	defer os.Remove(path)
@@ -133,7 +143,7 @@ func init() {
 		Rule:   "one evaluation = one seeded API program (transactions, commit/rollback/error/panic endings, reopen points, held readers) executed against the real DB and the reference model; every return value and error compared, full API dump compared after every write transaction and reopen. distinct = distinct (final model content hash, tree shape, txid) among programs that committed at least one change",
 		Assume: []string{"reference model (model/) encodes the documented API semantics", "values above MaxValueSize are not generated (2 GiB allocation)"}})
 	register(&Info{Prop: "C05", Engine: ms, Level: "exploration", QuickS: 45, ThoroughS: 600, RealStub: real,
-		Rule:   "one evaluation = one seeded program biased to cursor call sequences (First/Last/Next/Prev/Seek) issued inside write transactions after same-transaction puts and range deletions, each call compared with the model cursor; every dump also walks Last/Prev. distinct as for C04; non-trivial = at least one committed change",
+		Rule:   "one evaluation = one seeded program biased to cursor call sequences (First/Last/Next/Prev/Seek) issued inside write transactions after same-transaction puts and range deletions, each call compared with the model cursor; every dump also walks Last/Prev. One run index in 64 is the huge-leaf scenario: a single write transaction inserts more than 65536 keys into one bucket (one in-memory leaf, nodes are split only at commit) and walks it forwards, backwards over the tail, seeks exact keys and gaps around and beyond position 65535, cross-checks Get, deletes beyond that position through Delete and Cursor.Delete, and repeats the checks after commit. distinct as for C04; non-trivial = at least one committed change",
 		Assume: []string{"cursor semantics as stated in the property (sorted list with a position)", "a cursor call that exceeds the real-time watchdog is reported as a hang"}})
 	register(&Info{Prop: "C07", Engine: altEngine{[]Engine{ms, ms, faultsim{}, sizesim{}}}, Level: "exploration", QuickS: 45, ThoroughS: 600, RealStub: real,
 		Rule:   "one evaluation = one seeded program (biased to nested bucket create/delete/move); after every commit and reopen the file is decoded independently and every page below the high-water mark classified; compared with Tx.Check, Stats and Tx.Page. distinct as for C04",
